@@ -83,6 +83,11 @@ class Engine:
                          ['%s (now %s)' % (v, k)
                           for k, v in sorted(al.moved.items())],
                          ['%s.%s (now %s)' % x for x in al.attrs]))
+        if getattr(al, 'params', None):
+            ctx.note('parameters of non-public functions read under their '
+                     'pinned names: %s' % ['%s %s' % (k, ['%s->%s' % r
+                                                         for r in rr])
+                                           for k, rr in al.params])
         if getattr(al, 'restored', None):
             ctx.note('pinned helpers found inlined in their callers and put '
                      'back: %s' % ['%s (in %s)' % (
